@@ -626,32 +626,57 @@ PROPS = {
         "trusted": ["tools/skeleton.py (Pdb/Gen/Order.lean)"],
     },
     "C09": {
-        "lean": ["Pdb.Props.C09", "Pdb.Proofs.GenBits", "Pdb.Props.Refine"],
+        "lean": ["Pdb.Props.C09", "Pdb.Props.C09Total", "Pdb.Props.C09F24", "Pdb.Props.C09Replay", "Pdb.Proofs.GenBits", "Pdb.Props.Refine"],
         "harness": [{"cmd": "c09", "quick": 48, "thorough": 600, "timeout": 3000}],
         "level_text": ("Lean theorems C09_index_inv_preserved / C09_lookup_latest / C09_no_panic / C09_collision_individual over all histories (set, del, "
                        "reindex batch, enacted drop, reopen/recovery, relaunched growth) of the index-layer model (current table + queue of older tables, "
                        "pages of 64 entries with the generated bit functions, page search from the C19 model, value slots with 26-byte tails, per-tier "
                        "free lists); step theorems C09_write_preserves / C09_batch_no_loss / C09_drop_no_loss / C09_growth_recover / "
                        "C09_growth_redetected for any configuration; C09_lookup_latest_full_false: closed witness that the code before fixes 3f608ba / "
-                       "c9ce868 loses a key. Model tied by differential runs (set/del/get/stat/slots/crashto) and a BTreeMap + prefix oracle with crash "
-                       "images at every growth phase."),
+                       "c9ce868 loses a key. TOTALITY (Props/C09Total): the run theorems are conditional on the model's trajectory (runA = ok, "
+                       "AllBounded); C09_run_total derives both from hypotheses on the INPUT alone (InputOK: A-tail, 16 <= b0 <= K, K + relaunches "
+                       "<= 49, slots used < 2^(K+6), at most 64 set OPERATIONS per K-bit class of key prefixes), hence no panic, no loop-fuel "
+                       "exhaustion (Res.diverge), < 50 index bits, < 2^56 slots; restated property theorems C09_lookup_latest_total / "
+                       "C09_index_inv_preserved_total / C09_collision_individual_total / C09_no_diverge_total / C14_index_inv_preserved_total. The "
+                       "bound is on operations, not keys, because entries whose slot was freed or re-used are copied by reindex like live ones "
+                       "(finding F28). NEGATION WITNESSES (Props/C09F24): C09_full_statement_false_65 / C09_no_total_65 / C09_65_never_settles (65 "
+                       "keys sharing the 50 index-visible bits: at least 16 + n bits after n reindex passes, the queue of older tables never "
+                       "empties, no successful bounded run with 34 passes), C09_full_statement_false_twin (two keys with the same stored tail: a "
+                       "stale entry resolves to the other key's value; finding F29). REPLAY (Props/C09Replay, model Pdb/Model/IndexReplay.lean: "
+                       "records = index-entry / value-slot after-images + DropTable over (current bits, queue, contents)): C09_replay_absorbs / "
+                       "C09_replayRecords_absorbs (records r_i..r_n replayed over the state after r_1..r_m, any op-level split, give the state "
+                       "after r_1..r_n, incl. writes into a table dropped by a later record, DropTable of a table already gone, growth records "
+                       "whose table already exists), C09_replay_idempotent, C09_replay_skips_dropped, tie to the index model "
+                       "(C09_replay_reindex_is_trigger, C09_replay_drop_is_enactDrop). Model tied by differential runs "
+                       "(set/del/get/stat/slots/crashto) and a BTreeMap + prefix oracle with crash images at every growth phase, incl. images "
+                       "with 1..3 enacted-but-unreclaimed log files (counters crash.retained_enacted_*) and a half-enacted growth record."),
         "level_note": ("Trusted: Lean kernel; logical-state model (pipeline stages are P1); single-slot values (tier 255 by structural checks only); A-tail; "
                        "hook verif_dump."),
-        "rule": ("seed%16: directed sse2-neighbour / crash-after-drop / move-into-full-page, multi-batch (>8192 entries), steady workload, else random "
+        "rule": ("seed%16: directed sse2-neighbour / crash-after-drop / move-into-full-page, multi-batch (>8192 entries), steady workload; seed%32 = 6: "
+                 "65 keys of one 50-bit class resp. (seed bit 5) 64 keys + stale entries, bounded at 19 bits (known finding F28); 7: twin keys "
+                 "with equal stored tail (known finding F29); 8: crash with the enacted growth record retained resp. (seed bit 5) a half-enacted "
+                 "growth record; in runs of >= 16 cases the first seven seeds are moved onto these kinds; else random "
                  "histories over page-overflow sets sharing 16..18 bits, shared-50-bit classes (<=8), zero partial keys, SSE2-dropped-bit neighbours; "
                  "crash images at every growth phase; distinct by SHA-1 of ops; non-trivial = growth, batch or >3 records"),
-        "assumptions": ["A-tail: distinct hashed keys differ in bytes 6..32 (generator embeds a unique id)", "<= 49 index bits, < 2^56 slots per tier (AllBounded)",
-                        "full theorems for the fixed code (exact find_entry, grow on move); ExactCur for reindex/no-panic otherwise"],
+        "assumptions": ["A-tail: distinct hashed keys differ in bytes 6..32 (generator embeds a unique id). Exact reach: excludes pairs of hashed keys that differ "
+                        "in bytes 0..5 only = 208-bit partial Blake2b collision (non-uniform columns), equal user bytes 16..32 + 80-bit partial "
+                        "SipHash-128 collision (uniform, format 8), user-chosen on uniform columns of format <= 7 / identity hash; false without it (F29)",
+                        "InputOK (totality): at most 64 set operations per K-bit prefix class, slots < 2^(K+6), K + relaunches <= 49; without the class "
+                        "bound the growth never completes (F28); the old theorems keep AllBounded (<= 49 index bits, < 2^56 slots per tier) as a hypothesis",
+                        "full theorems for the fixed code (exact find_entry, grow on move); ExactCur for reindex/no-panic otherwise",
+                        "replay theorems: WF op sequences (DropTable targets the queue front; a growth writes into the new table in the same op)"],
         "trusted": ["hook Db::verif_dump / verif_reindex_state (cfg pdb_verif)"],
     },
     "C14": {
-        "lean": ["Pdb.Props.C14", "Pdb.Props.C14Dump", "Pdb.Props.C14DumpRc"],
+        "lean": ["Pdb.Props.C14", "Pdb.Props.C09Total", "Pdb.Props.C09F24", "Pdb.Props.C14Dump", "Pdb.Props.C14DumpRc"],
         "harness": [{"cmd": "c09", "quick": 48, "thorough": 600, "timeout": 3000},
                     {"cmd": "c10", "quick": 100, "thorough": 1500},
                     {"cmd": "c02x", "quick": 150, "thorough": 2000, "timeout": 7200}],
         "level_text": ("Lean theorems: IndexInv / SlotInvAbs / NoLeak preserved over all histories (C14_index_inv_preserved, C14_no_leak), "
                        "C14_no_misattribution, C14_remove_returns_slot, C14_fill_mark_moves_only_when_no_free_slot, C14_iter_values_exact on the abstract "
-                       "value tables of the index-layer model; the byte-level slot invariant (free list acyclic / in range, chains disjoint, live + free = "
+                       "value tables of the index-layer model (C14_index_inv_preserved_total: the same from input hypotheses only, Props/C09Total; "
+                       "C09_full_statement_false_twin: 'no index entry resolves to a value of another key' fails for two keys with equal stored tail, "
+                       "finding F29); the byte-level slot invariant (free list acyclic / in range, chains disjoint, live + free = "
                        "filled - 1) is C06's SlotInv, the btree invariant C04's TreeInv, the reference-count invariant C10's RcInv. Tied to the code by "
                        "structural checks on read-only dumps of the real index tables, value tables and free lists after every drain / reopen / recovery, "
                        "steady insert/remove workloads, and value iteration."),
